@@ -3,12 +3,22 @@
     [Print Assumptions].  Model functions are the line-by-line transcription of
     src/offset/local/tz_info/{timezone,rule}.rs (Model/TzLookup.v, Model/TzRule.v) and of the glue
     in src/offset/local/{unix,mod}.rs and src/offset/mod.rs (Model/C05.v), with trapping integer
-    arithmetic ([Val]/[Panic]) and [Result] values ([Ok]/[Err]). *)
+    arithmetic ([Val]/[Panic]) and [Result] values ([Ok]/[Err]).
+
+    Coverage of "wall clock -> candidates" against the oracle Spec/Zone.v [instants_of_wall]:
+    table-only zones (C05_classification_table, C05_roundtrip_table), TZ strings / rule-only zones
+    (C05_rule_zone_classification), COMPOSITE zones = table + footer rule
+    (C05_composite_classification, C05_roundtrip_composite), and the value level of
+    Local.from_local_datetime (the C05_from_local_values theorems).  Still open: the rule round trip ON the
+    excepted boundary seconds (the property excepts them); composite zones whose last table
+    transition, read on the clocks involved, straddles a calendar-year boundary (clause (1) of
+    [footer_continues]; it holds whenever the last table transition is one of the rule's transitions
+    under the property's premise and the offset before it is one of the rule's two offsets). *)
 From Coq Require Import ZArith List Bool.
 From V Require Import Base.Int Base.IO.
 From V Require Import Spec.Zone Proofs.TzCommon.
 From V Require Spec.Gregorian.
-From V Require Import Model.TzParser Model.TzRule Model.TzLookup Model.C05 Proofs.C05.
+From V Require Import Model.TzParser Model.TzRule Model.TzLookup Model.C05 Proofs.C05 Proofs.C05Composite Proofs.C05Glue Proofs.C05Judge.
 From V Require Model.Date Model.DateTime.
 Import ListNotations.
 Open Scope Z_scope.
@@ -301,6 +311,346 @@ Theorem C05_rule_is_dst_year : forall r k t, rule_year_hyps r k ->
    else (t <? rule_end_utc r k) || (rule_start_utc r k <=? t)).
 Proof. exact rule_is_dst_year. Qed.
 Print Assumptions C05_rule_is_dst_year.
+
+(** ** COMPOSITE zones: a transition table followed by a footer rule (Proofs/C05Composite.v).
+    [cz] = the zone as the oracle sees it.  [last_window] = the last table transition (instant,
+    offset before, offset after); [footer_hi] = the end of its wall-clock window; [footer_year] = the
+    calendar year of its wall reading.  [footer_continues cz] (decidable) = the continuity condition
+    between table and rule: (1) read on every clock involved, the last table transition lies in one
+    calendar year (implied by the property's premise when, as in every real file, the last table
+    transition is one of the rule's transitions); (2) the offset in force after the last transition is
+    the rule's offset there; (3) a rule transition of that year after the last table transition has its
+    wall-clock window after the last table window, one at or before it has its window at or before the
+    end of the last table window.  [rule_reading_hyps a l] = the premises of
+    C05_rule_zone_classification for the reading l (year fits, property's premise for the years
+    k-3..k+2, the year's two windows disjoint and in order); needed only past the last table window. *)
+
+(* S(l) of the composite zone is S(l) of the table alone up to the end of the last table window and
+   S(l) of the rule alone after it *)
+Theorem C05_composite_instants : forall first tr r tl pv ol l,
+  increasing tr = true -> ordered (windows tr first) = true ->
+  last_window tr first = Some (tl, pv, ol) ->
+  footer_continues (mk_szone first tr (Some (inr r))) = true ->
+  rule_year_hyps r (utc_year (tl + ol)) ->
+  let cz := mk_szone first tr (Some (inr r)) in
+  (l <= tl + Z.max pv ol ->
+   forall t, In t (instants_of_wall cz l) <-> In t (instants_of_wall (mk_szone first tr None) l)) /\
+  (tl + Z.max pv ol < l ->
+   forall t, In t (instants_of_wall cz l) <-> In t (instants_of_wall (mk_szone first [] (Some (inr r))) l)).
+Proof. exact composite_instants. Qed.
+Print Assumptions C05_composite_instants.
+
+(* unique / twice / skipped, and order, for EVERY wall reading off the excepted seconds: the answer of
+   find_local_time_type_from_local on the composite zone is None / Single / Ambiguous(earliest, latest)
+   exactly as instants_of_wall is [] / [t] / [t1; t2] (C05_classification_table up to the last window,
+   C05_rule_zone_classification after it, joined by C05_scan_then_rule and C05_composite_instants) *)
+Theorem C05_composite_classification : forall z ps first a l,
+  let k := utc_year l in let r := conv_rule a in
+  let cz := mk_szone (ut_offset first) (offs ps) (Some (inr r)) in
+  table_zone z ps first -> extra_rule z = Some (Alternate a) -> alt_ok a -> r_std r <> r_dst r ->
+  increasing (offs ps) = true -> spacing_table (offs ps) (ut_offset first) = true ->
+  footer_continues cz = true -> rule_year_hyps r (footer_year cz) ->
+  (footer_hi cz < l -> rule_reading_hyps a l) ->
+  excepted_wall cz l = false ->
+  exists m, find_local_time_type_from_local z k l = Val (Ok m) /\
+  let S := instants_of_wall cz l in
+  match m with
+  | MNone => S = []
+  | MSingle x => forall t, In t S <-> t = l - ut_offset x
+  | MAmbiguous x y => l - ut_offset x < l - ut_offset y /\
+                      forall t, In t S <-> t = l - ut_offset x \/ t = l - ut_offset y
+  end.
+Proof. exact composite_classification. Qed.
+Print Assumptions C05_composite_classification.
+
+(* roundtrip: for EVERY instant t whose wall reading t + off(t) is not an excepted second, converting
+   that reading back yields an answer that contains off(t), i.e. the instant t *)
+Theorem C05_roundtrip_composite : forall z ps first a t o,
+  let r := conv_rule a in
+  let cz := mk_szone (ut_offset first) (offs ps) (Some (inr r)) in
+  let l := t + o in
+  table_zone z ps first -> extra_rule z = Some (Alternate a) -> alt_ok a -> r_std r <> r_dst r ->
+  increasing (offs ps) = true -> spacing_table (offs ps) (ut_offset first) = true ->
+  footer_continues cz = true -> rule_year_hyps r (footer_year cz) ->
+  (footer_hi cz < l -> rule_reading_hyps a l) ->
+  zone_off cz t = Some o -> excepted_wall cz l = false ->
+  exists m, find_local_time_type_from_local z (utc_year l) l = Val (Ok m) /\ contains m o.
+Proof. exact roundtrip_composite. Qed.
+Print Assumptions C05_roundtrip_composite.
+
+(* offset_at_spec on a composite zone, for EVERY instant: the binary search before the last transition,
+   the rule from it on ([rule_hyps a t]: the premises of C05_offset_at_rule), joined by clause (2) of
+   the continuity condition ([roff r tl] = the rule's offset at the last transition) *)
+Theorem C05_offset_at_composite : forall z ps first a tl pv ol t,
+  let r := conv_rule a in
+  let cz := mk_szone (ut_offset first) (offs ps) (Some (inr r)) in
+  table_zone z ps first -> leap_seconds z = [] -> extra_rule z = Some (Alternate a) ->
+  increasing (offs ps) = true -> zlen (transitions z) < 4611686018427387904 ->
+  last_window (offs ps) (ut_offset first) = Some (tl, pv, ol) -> roff r tl = ol ->
+  (tl <= t -> rule_hyps a t) ->
+  exists lt, find_local_time_type z t = Val (Ok lt) /\ zone_off cz t = Some (ut_offset lt).
+Proof. exact offset_at_composite. Qed.
+Print Assumptions C05_offset_at_composite.
+
+(* the hypotheses are inhabited: Europe/Berlin's two transitions of 2023 followed by the footer
+   CET-1CEST,M3.5.0,M10.5.0/3 *)
+Theorem C05_composite_example :
+  table_zone exc_zone ex_ps ex_cet /\ extra_rule exc_zone = Some (Alternate exc_rule) /\ alt_ok exc_rule /\
+  r_std (conv_rule exc_rule) <> r_dst (conv_rule exc_rule) /\
+  increasing (offs ex_ps) = true /\ spacing_table (offs ex_ps) (ut_offset ex_cet) = true /\
+  footer_continues exc_cz = true /\ footer_year exc_cz = 2023 /\ footer_hi exc_cz = 1698548400 /\
+  rule_year_hyps (conv_rule exc_rule) (footer_year exc_cz).
+Proof. exact exc_hyps. Qed.
+Print Assumptions C05_composite_example.
+Theorem C05_composite_example_readings :
+  rule_reading_hyps exc_rule 1729996200 /\ rule_reading_hyps exc_rule 1711852200 /\
+  rule_reading_hyps exc_rule 1719792000 /\
+  excepted_wall exc_cz 1729996200 = false /\ excepted_wall exc_cz 1711852200 = false /\
+  excepted_wall exc_cz 1719792000 = false /\ excepted_wall exc_cz 1698546600 = false /\
+  find_local_time_type_from_local exc_zone 2024 1729996200 = Val (Ok (MAmbiguous ex_cest ex_cet)) /\
+  instants_of_wall exc_cz 1729996200 = [1729989000; 1729992600] /\
+  find_local_time_type_from_local exc_zone 2024 1711852200 = Val (Ok MNone) /\
+  instants_of_wall exc_cz 1711852200 = [] /\
+  find_local_time_type_from_local exc_zone 2024 1719792000 = Val (Ok (MSingle ex_cest)) /\
+  instants_of_wall exc_cz 1719792000 = [1719784800] /\
+  find_local_time_type_from_local exc_zone 2023 1698546600 = Val (Ok (MAmbiguous ex_cest ex_cet)) /\
+  instants_of_wall exc_cz 1698546600 = [1698539400; 1698543000].
+Proof. exact exc_readings. Qed.
+Print Assumptions C05_composite_example_readings.
+
+(* the continuity condition against the JUDGE's own domain condition for composite zones
+   ([J] = Judge/C05.v; [J.spacing_rule_table]: every rule transition of the three years around the
+   last table transition continues the table / ends its window before / begins it after the last
+   table window): where the last table transition lies in one calendar year on the clocks involved
+   (clause (1)) and the offset after it is the rule's (clause (2)), a zone the judge calls well spaced
+   satisfies footer_continues -- the readings judged under lz.loc / lz.sel / lz.rt on such zones are
+   readings C05_composite_classification speaks about *)
+Theorem C05_judge_spacing_footer_continues : forall first tr r tl pv ol,
+  let cz := mk_szone first tr (Some (inr r)) in
+  let k := utc_year (tl + ol) in
+  increasing tr = true -> last_window tr first = Some (tl, pv, ol) ->
+  J.spacing_rule_table cz r = true ->
+  utc_year tl = k ->
+  (year_start k <=? tl + Z.min (r_std r) (r_dst r)) = true ->
+  (tl + Z.max (Z.max (r_std r) (r_dst r)) pv <? year_start (k + 1)) = true ->
+  roff r tl = ol -> rule_year_hyps r k ->
+  footer_continues cz = true.
+Proof. exact judge_spacing_footer_continues. Qed.
+Print Assumptions C05_judge_spacing_footer_continues.
+Theorem C05_judge_spacing_example :
+  J.spacing_rule_table exc_cz (conv_rule exc_rule) = true /\
+  J.spacing_ok exc_cz 1729996200 = true /\
+  utc_year 1698541200 = utc_year (1698541200 + 3600).
+Proof. exact exc_judge. Qed.
+Print Assumptions C05_judge_spacing_example.
+
+(* a table followed by a FIXED footer (zones that abolished daylight time, "JST-9"): when the footer's
+   offset is the offset after the last transition the same classification holds, for every reading
+   off the table's excepted seconds and every year argument *)
+Theorem C05_composite_fixed_classification : forall z ps first f y l,
+  let cz := mk_szone (ut_offset first) (offs ps) (Some (inl (ut_offset f))) in
+  table_zone z ps first -> extra_rule z = Some (Fixed f) ->
+  increasing (offs ps) = true -> spacing_table (offs ps) (ut_offset first) = true ->
+  (forall tl pv ol, last_window (offs ps) (ut_offset first) = Some (tl, pv, ol) -> ol = ut_offset f) ->
+  excepted_wall cz l = false ->
+  exists m, find_local_time_type_from_local z y l = Val (Ok m) /\ classified cz l m.
+Proof. exact composite_fixed_classification. Qed.
+Print Assumptions C05_composite_fixed_classification.
+Theorem C05_composite_fixed_example :
+  table_zone fix_zone ex_ps ex_cet /\ extra_rule fix_zone = Some (Fixed ex_cet) /\
+  (forall tl pv ol, last_window (offs ex_ps) (ut_offset ex_cet) = Some (tl, pv, ol) -> ol = ut_offset ex_cet) /\
+  excepted_wall fix_cz 1719792000 = false /\
+  find_local_time_type_from_local fix_zone 2024 1719792000 = Val (Ok (MSingle ex_cet)) /\
+  instants_of_wall fix_cz 1719792000 = [1719788400] /\
+  excepted_wall fix_cz 1698546600 = false /\
+  find_local_time_type_from_local fix_zone 2023 1698546600 = Val (Ok (MAmbiguous ex_cest ex_cet)) /\
+  instants_of_wall fix_cz 1698546600 = [1698539400; 1698543000].
+Proof. exact fix_facts. Qed.
+Print Assumptions C05_composite_fixed_example.
+
+(* the continuity condition of C05_composite_classification cannot be dropped (the case named in the
+   known finding C05-closely-spaced-transitions: "a footer rule whose transition near the last table
+   transition does not continue the table"): every other hypothesis holds, clause (3) of
+   footer_continues fails, the rule code answers Ambiguous, the reading occurs once *)
+Theorem C05_footer_discontinuous_refuted :
+  table_zone dis_zone dis_ps ex_cet /\ extra_rule dis_zone = Some (Alternate exc_rule) /\
+  increasing (offs dis_ps) = true /\ spacing_table (offs dis_ps) (ut_offset ex_cet) = true /\
+  rule_year_hyps (conv_rule exc_rule) (footer_year dis_cz) /\ rule_reading_hyps exc_rule 1698546600 /\
+  footer_hi dis_cz < 1698546600 /\ excepted_wall dis_cz 1698546600 = false /\
+  footer_continues dis_cz = false /\
+  find_local_time_type_from_local dis_zone 2023 1698546600 = Val (Ok (MAmbiguous ex_cest ex_cet)) /\
+  instants_of_wall dis_cz 1698546600 = [1698543000].
+Proof. exact discontinuous_refuted. Qed.
+Print Assumptions C05_footer_discontinuous_refuted.
+
+(* the classification in list form: the candidates' instants ARE the list instants_of_wall
+   ([classified z l m] is the None / Single / Ambiguous statement of the classification theorems;
+   [cand_instants l m] = [] / [l - off x] / [l - off x; l - off y]) *)
+Theorem C05_classified_list : forall z l m, classified z l m -> instants_of_wall z l = cand_instants l m.
+Proof. exact classified_list. Qed.
+Print Assumptions C05_classified_list.
+
+(** ** The glue at the level of VALUES (Proofs/C05Glue.v): Local.from_local_datetime returns
+    date-times.  [P4] = Proofs/C04.v ([ndt_ok]: a supported NaiveDateTime, [usecs] its second count
+    from day 1 CE, [dtz_ok], [frac]); [wsecs a] = seconds since the Unix epoch of a naive reading;
+    [dz_unix v] = the instant of a value; [supported t] = the instant is in NaiveDateTime's range
+    (C04's in_rng); [mlt_list] = the values of a MappedLocalTime, earliest first;
+    [value_at local off v] = v is a well-formed date-time with offset off, instant wsecs local - off,
+    the sub-second field of local, and naive_local v = local (C04_from_local_fails_iff,
+    C04_local_roundtrip). *)
+
+(* what the lookup is handed: the second count (C02) and its calendar year *)
+Theorem C05_glue_timestamp : forall local, P4.ndt_ok local ->
+  DateTime.dt_timestamp local = Val (wsecs local) /\
+  Date.d_year (DateTime.nd_date local) = utc_year (wsecs local).
+Proof. exact (fun local H => conj (ts_wall local H) (year_wall local H)). Qed.
+Print Assumptions C05_glue_timestamp.
+
+(* from the lookup's answer m to values: candidate by candidate; None as a whole when a candidate's
+   instant is unsupported *)
+Theorem C05_from_local_values_candidates : forall zone local m,
+  P4.ndt_ok local ->
+  find_local_time_type_from_local zone (utc_year (wsecs local)) (wsecs local) = Val (Ok m) ->
+  (forall o, contains m o -> off_ok o) ->
+  let l := wsecs local in
+  exists r, from_local_datetime zone local = Val r /\
+  if forallb supported (cand_instants l m)
+  then map dz_unix (mlt_list r) = cand_instants l m /\
+       Forall (fun v => value_at local (DateTime.dz_off v) v) (mlt_list r) /\
+       map DateTime.dz_off (mlt_list r) = mlt_list (mlt_map m ut_offset)
+  else r = MNone.
+Proof. exact from_local_values. Qed.
+Print Assumptions C05_from_local_values_candidates.
+(* ... None as a whole when a candidate offset is no FixedOffset; a panic exactly when the lookup fails *)
+Theorem C05_from_local_values_bad : forall zone local,
+  P4.ndt_ok local ->
+  match find_local_time_type_from_local zone (utc_year (wsecs local)) (wsecs local) with
+  | Val (Ok m) => (exists o, contains m o /\ ~ off_ok o) -> from_local_datetime zone local = Val MNone
+  | Val (Err _) => from_local_datetime zone local = Panic
+  | Panic => from_local_datetime zone local = Panic
+  | OutOfFuel => from_local_datetime zone local = OutOfFuel
+  end.
+Proof. exact from_local_values_bad. Qed.
+Print Assumptions C05_from_local_values_bad.
+
+(* against the oracle: whenever the lookup's answer classifies S(l) (the conclusion of
+   C05_classification_table / C05_rule_zone_classification / C05_composite_classification), the
+   date-times returned have exactly the instants S(l) = instants_of_wall, earliest first, each
+   reading [local] on its own wall clock; None as a whole when an instant of S(l) is unsupported *)
+Theorem C05_from_local_values : forall zone z local m,
+  P4.ndt_ok local -> let l := wsecs local in
+  find_local_time_type_from_local zone (utc_year l) l = Val (Ok m) ->
+  classified z l m ->
+  (forall o, In o (zone_offsets z) -> off_ok o) ->
+  let S := instants_of_wall z l in
+  exists r, from_local_datetime zone local = Val r /\
+  if forallb supported S
+  then map dz_unix (mlt_list r) = S /\
+       Forall (fun v => value_at local (DateTime.dz_off v) v) (mlt_list r)
+  else r = MNone.
+Proof. exact from_local_values_instants. Qed.
+Print Assumptions C05_from_local_values.
+
+(* end to end for a composite zone *)
+Theorem C05_from_local_values_composite : forall zone ps first a local,
+  let l := wsecs local in let r := conv_rule a in
+  let cz := mk_szone (ut_offset first) (offs ps) (Some (inr r)) in
+  P4.ndt_ok local ->
+  table_zone zone ps first -> extra_rule zone = Some (Alternate a) -> alt_ok a -> r_std r <> r_dst r ->
+  increasing (offs ps) = true -> spacing_table (offs ps) (ut_offset first) = true ->
+  footer_continues cz = true -> rule_year_hyps r (footer_year cz) ->
+  (footer_hi cz < l -> rule_reading_hyps a l) ->
+  excepted_wall cz l = false ->
+  (forall o, In o (zone_offsets cz) -> off_ok o) ->
+  let S := instants_of_wall cz l in
+  exists v, from_local_datetime zone local = Val v /\
+  if forallb supported S
+  then map dz_unix (mlt_list v) = S /\
+       Forall (fun x => value_at local (DateTime.dz_off x) x) (mlt_list v)
+  else v = MNone.
+Proof. exact from_local_values_composite. Qed.
+Print Assumptions C05_from_local_values_composite.
+
+(* Local.from_utc_datetime at value level: the same UTC reading with the offset of the selected type;
+   a panic exactly when that offset is no FixedOffset *)
+Theorem C05_from_utc_values : forall zone utc lt,
+  P4.ndt_ok utc -> find_local_time_type zone (wsecs utc) = Val (Ok lt) ->
+  (off_ok (ut_offset lt) ->
+   from_utc_datetime zone utc = Val (DateTime.mk_dtz utc (ut_offset lt)) /\
+   P4.dtz_ok (DateTime.mk_dtz utc (ut_offset lt))) /\
+  (~ off_ok (ut_offset lt) -> from_utc_datetime zone utc = Panic).
+Proof. exact from_utc_values. Qed.
+Print Assumptions C05_from_utc_values.
+
+(* round trip at value level: instant -> date-time v -> its wall clock w (naive_local) -> date-times:
+   v itself is among them (whenever the wall clock is a supported reading and every candidate's instant
+   is supported) *)
+Theorem C05_roundtrip_values : forall zone utc lt m,
+  P4.ndt_ok utc -> let t := wsecs utc in let o := ut_offset lt in let l := t + o in
+  find_local_time_type zone t = Val (Ok lt) -> off_ok o -> supported l = true ->
+  find_local_time_type_from_local zone (utc_year l) l = Val (Ok m) -> contains m o ->
+  (forall o', contains m o' -> off_ok o') ->
+  forallb supported (cand_instants l m) = true ->
+  exists v w r, from_utc_datetime zone utc = Val v /\ DateTime.dz_utc v = utc /\ DateTime.dz_off v = o /\
+                DateTime.naive_local v = Val w /\ P4.ndt_ok w /\ wsecs w = l /\
+                from_local_datetime zone w = Val r /\ In v (mlt_list r).
+Proof. exact roundtrip_values. Qed.
+Print Assumptions C05_roundtrip_values.
+(* ... end to end on a composite zone: every supported instant t at which the zone data prescribe the
+   offset o, whose wall reading t + o is supported and not an excepted second *)
+Theorem C05_roundtrip_values_composite : forall zone ps first a tl pv ol utc,
+  let r := conv_rule a in
+  let cz := mk_szone (ut_offset first) (offs ps) (Some (inr r)) in
+  let t := wsecs utc in
+  P4.ndt_ok utc ->
+  table_zone zone ps first -> leap_seconds zone = [] -> extra_rule zone = Some (Alternate a) ->
+  alt_ok a -> r_std r <> r_dst r ->
+  increasing (offs ps) = true -> spacing_table (offs ps) (ut_offset first) = true ->
+  zlen (transitions zone) < 4611686018427387904 ->
+  last_window (offs ps) (ut_offset first) = Some (tl, pv, ol) ->
+  footer_continues cz = true -> rule_year_hyps r (footer_year cz) ->
+  (tl <= t -> rule_hyps a t) ->
+  (forall o, In o (zone_offsets cz) -> off_ok o) ->
+  forall o, zone_off cz t = Some o -> let l := t + o in
+  (footer_hi cz < l -> rule_reading_hyps a l) ->
+  excepted_wall cz l = false ->
+  supported l = true -> forallb supported (instants_of_wall cz l) = true ->
+  exists v w res, from_utc_datetime zone utc = Val v /\ DateTime.dz_utc v = utc /\ DateTime.dz_off v = o /\
+                  DateTime.naive_local v = Val w /\ P4.ndt_ok w /\ wsecs w = l /\
+                  from_local_datetime zone w = Val res /\ In v (mlt_list res) /\
+                  map dz_unix (mlt_list res) = instants_of_wall cz l.
+Proof. exact roundtrip_values_composite. Qed.
+Print Assumptions C05_roundtrip_values_composite.
+Theorem C05_roundtrip_values_example :
+  P4.ndt_ok exg_utc /\ wsecs exg_utc = 1729989000 /\ leap_seconds exc_zone = [] /\
+  zlen (transitions exc_zone) < 4611686018427387904 /\
+  last_window (offs ex_ps) (ut_offset ex_cet) = Some (1698541200, 7200, 3600) /\
+  rule_hyps exc_rule 1729989000 /\
+  zone_off exc_cz 1729989000 = Some 7200 /\ supported (1729989000 + 7200) = true /\
+  match from_utc_datetime exc_zone exg_utc with
+  | Val v => DateTime.naive_local v = Val exg_local /\
+             match from_local_datetime exc_zone exg_local with
+             | Val (MAmbiguous x y) => x = v /\ dz_unix y = 1729992600
+             | _ => False
+             end
+  | _ => False
+  end.
+Proof. exact exg_roundtrip. Qed.
+Print Assumptions C05_roundtrip_values_example.
+
+(* inhabited: 2024-10-27T02:30:00 in the Berlin-like composite zone gives two date-times,
+   00:30:00Z (+02:00) then 01:30:00Z (+01:00) *)
+Theorem C05_from_local_values_example :
+  P4.ndt_ok exg_local /\ wsecs exg_local = 1729996200 /\
+  (forall o, In o (zone_offsets exc_cz) -> off_ok o) /\
+  forallb supported (instants_of_wall exc_cz 1729996200) = true /\
+  match from_local_datetime exc_zone exg_local with
+  | Val (MAmbiguous v w) => dz_unix v = 1729989000 /\ dz_unix w = 1729992600 /\
+                            DateTime.dz_off v = 7200 /\ DateTime.dz_off w = 3600
+  | _ => False
+  end.
+Proof. exact exg_facts. Qed.
+Print Assumptions C05_from_local_values_example.
 
 (** ** Known finding C05-closely-spaced-transitions: the spacing hypothesis of
     C05_classification_table / C05_roundtrip_table cannot be dropped *)
